@@ -31,7 +31,14 @@ template <class X> void one(Ctx& c, UriBox<X>& b, const Str& origin) {
     c.count(fmt("len_bucket_%zu", L < 8 ? L : (L < 32 ? 8 : (L < 128 ? 32 : 128))));
     // every capacity
     long lo = -2, hi = (long)L + 3;
-    std::vector<long> caps; for (long k = lo; k <= hi; k++) caps.push_back(k);
+    std::vector<long> caps;
+    if (L <= 6000) for (long k = lo; k <= hi; k++) caps.push_back(k);
+    else {      // very long text: both ends, the 16-bit neighbourhood, and a sample in between
+        for (long k = lo; k <= 8; k++) caps.push_back(k); for (long k = (long)L - 6; k <= hi; k++) caps.push_back(k);
+        for (long k = 65533; k <= 65539; k++) if (k < (long)L - 6) caps.push_back(k);
+        for (int i = 0; i < 24; i++) caps.push_back(9 + (long)c.rng.below((uint32_t)(L - 16)));
+        c.count("very_long_texts");
+    }
     if (c.rng.chance(1, 16)) { caps.push_back(INT_MIN); caps.push_back((long)L + 1000); }
     OutBuf ob;
     for (long cap : caps) {
@@ -65,7 +72,7 @@ template <class X> void one(Ctx& c, UriBox<X>& b, const Str& origin) {
 template <class X> void run(Ctx& c, uint64_t idx) {
     Rng& r = c.rng;
     UriBox<X> b;
-    UriGenOpts o; o.maxSegs = 5;
+    UriGenOpts o; o.maxSegs = 5; o.huge = true;
     Str s;
     for (int tries = 0; tries < 20; tries++) { s = idx < gdegenerate_count() / 7 ? gdegenerate_case(idx * 7 + (uint64_t)tries) : gen_uri(r, o); size_t e; if (dfa_uriref(s, &e)) break; s.clear(); }
     if (b.parse(s) != URI_SUCCESS) { c.count("skipped_invalid"); return; }
